@@ -335,3 +335,50 @@ def conversion_agreement(model, rel):
             for kind in sorted(set(ce) & set(cd)):
                 out.append((c, er[1], dr[1], kind, ce[kind], cd[kind], ce[kind] == cd[kind]))
     return out
+
+
+# ---------------------------------------------------------------------------------------------------------------------------------
+# REAL text: the float reaches the shortest-round-trip formatter (str / repr / '{}') unrounded
+_PREC = re.compile(r'\.(\d+|\{[^}]*\})?[eEfFgG%]') if 're' in globals() else None
+
+
+def lossy_float_ops(f, aliases):
+    """Operations in f that round the float held by one of `aliases` before it is turned into text: round(x, ..), a format specification with a precision
+    below 17 significant digits (or a computed one) -- '{:.15g}'.format(x), '%.15g' % x, format(x, '.15g'), f'{x:.15g}' -- which two different doubles share.
+    -> [(node, what)]"""
+    import re as _re
+    prec = _re.compile(r'\.(\d+|\{[^}]*\}|\*)[eEfFgG]')
+
+    def is_alias(e):
+        return isinstance(e, ast.Name) and e.id in aliases or (isinstance(e, ast.Call) and isinstance(e.func, ast.Name) and e.func.id in ('float', 'abs') and e.args and is_alias(e.args[0]))
+
+    def low(spec):
+        m = prec.search(spec)
+        if not m:
+            return False
+        d = m.group(1)
+        if d.isdigit():
+            # %e / %f count digits after the point: 17 significant digits need .16e; be exact only for g
+            need = 17 if spec[m.end() - 1] in 'gG' else 16
+            return int(d) < need
+        return True           # a computed precision
+    out = []
+    for n in walk_no_nested(f):
+        if isinstance(n, ast.Call) and isinstance(n.func, ast.Name) and n.func.id == 'round' and n.args and is_alias(n.args[0]):
+            out.append((n, 'round()'))
+        elif isinstance(n, ast.Call) and isinstance(n.func, ast.Attribute) and n.func.attr == 'format' and isinstance(n.func.value, ast.Constant) and isinstance(n.func.value.value, str):
+            if n.args and any(is_alias(a) for a in n.args) and low(n.func.value.value):
+                out.append((n, 'format specification %r' % n.func.value.value))
+        elif isinstance(n, ast.BinOp) and isinstance(n.op, ast.Mod) and isinstance(n.left, ast.Constant) and isinstance(n.left.value, str):
+            args = n.right.elts if isinstance(n.right, ast.Tuple) else [n.right]
+            if any(is_alias(a) for a in args) and low(n.left.value):
+                out.append((n, 'format specification %r' % n.left.value))
+        elif isinstance(n, ast.Call) and isinstance(n.func, ast.Name) and n.func.id == 'format' and len(n.args) == 2 and is_alias(n.args[0]):
+            sp = n.args[1].value if isinstance(n.args[1], ast.Constant) and isinstance(n.args[1].value, str) else '.{}g'
+            if low(sp):
+                out.append((n, 'format(x, %s)' % ast.unparse(n.args[1])))
+        elif isinstance(n, ast.FormattedValue) and is_alias(n.value) and n.format_spec is not None:
+            sp = ''.join(v.value if isinstance(v, ast.Constant) else '{}' for v in n.format_spec.values)
+            if low(sp):
+                out.append((n, 'format specification %r' % sp))
+    return out
